@@ -1,3 +1,259 @@
-import DmlcModel.Parse.Model
+/-
+C12 — parsers return exactly the rows a well-formed document describes.
+
+Renderers (`renderSvm`, `renderFm`, `renderCsv` over a `Style` capturing every free choice of the
+format), the full statements `C12_libsvm / C12_libfm / C12_csv` (stated; see CONFIG['partial']) and the
+proved core of the round trip: `C12_pair_partial` — `ParsePair` on a rendered `lexeme[:lexeme]` followed by
+a separator returns exactly the two lexemes' values and stops exactly behind them (generic in the
+conversions, contract `Conv.Exact`).  The document-level step from lines to blocks is C11.
+-/
+import DmlcModel.Props.C11
+
 namespace DmlcModel.Props.C12
+open DmlcModel DmlcModel.Parse DmlcModel.Props.C11
+
+/-! ### lexemes and the exactness contract -/
+
+/-- a number lexeme is spelled with number characters only (digits, sign, '.', 'e', 'E') and is not empty;
+which of these strings are *numbers* is C14's business: here a lexeme means whatever the conversion
+returns for it when it stands alone -/
+def IsLexeme (lex : Bytes) : Prop := lex ≠ [] ∧ ∀ b ∈ lex, isDigitCharB b = true
+
+/-- bytes that may follow a lexeme: anything that is not a number character of strtonum.h nor a letter
+(so that `1e5x`, `0x10`, `inf` … are not lexemes followed by something) -/
+def isDelimB (b : UInt8) : Bool := !isDigitCharB b && !ConvSimple.isNumCh b
+
+/-- `Conv.Exact`: a lexeme followed by a delimiter converts to the value of the lexeme standing alone -/
+structure Exact (g : Bytes → Res Nat) : Prop where
+  exact : ∀ lex tail : Bytes, IsLexeme lex → (∀ b, tail.head? = some b → isDelimB b = true) →
+    g (lex ++ tail) = g lex
+
+structure Conv.ExactWith (conv : Conv) (gR gI gQ : Bytes → Res Nat) (gC : Bytes → Res (Nat × Nat)) : Prop where
+  loc : conv.LocalWith gR gI gQ gC
+  real : Exact gR
+  index : Exact gI
+  qid : Exact gQ
+  cell : ∀ lex tail : Bytes, IsLexeme lex → (∀ b, tail.head? = some b → isDelimB b = true) →
+    gC (lex ++ tail) = gC lex ∧ ∀ v k, gC lex = .ok (v, k) → k = lex.length
+
+/-! ### tables, styles, renderers -/
+
+def blanksOnly (s : Bytes) : Prop := ∀ b ∈ s, isBlankB b = true
+def isSep (s : Bytes) : Prop := s ≠ [] ∧ blanksOnly s
+def isEolStr (s : Bytes) : Prop := s ≠ [] ∧ ∀ b ∈ s, isEolB b = true
+def noEol (s : Bytes) : Prop := ∀ b ∈ s, isEolB b = false ∧ b ≠ 0
+
+def decimal (n : Nat) : Bytes := (Nat.toDigits 10 n).map fun c => UInt8.ofNat c.toNat
+
+structure Entry where
+  field : Nat := 0
+  index : Nat
+  value : Option Bytes      -- lexeme
+structure TRow where
+  label : Bytes             -- lexeme
+  weight : Option Bytes     -- lexeme
+  qid : Option Nat := none
+  entries : List Entry
+
+/-- every free choice of the libsvm / libfm line format, per row -/
+structure RowStyle where
+  lead : Bytes              -- blanks in front of the label
+  qidSep : Bytes            -- separator in front of `qid:`
+  seps : List Bytes         -- separator in front of each entry
+  trail : Bytes             -- blanks behind the last token
+  comment : Option Bytes    -- libsvm: `#` and the rest of the line
+  eol : Bytes               -- `\n`, `\r`, `\r\n`, …
+  filler : List Bytes       -- blank / comment lines (with their end of line) in front of this row
+
+def renderEntry (fm : Bool) (sep : Bytes) (e : Entry) : Bytes :=
+  sep ++ (if fm then decimal e.field ++ [58] else []) ++ decimal e.index ++
+    (match e.value with | some v => 58 :: v | none => [])
+
+def renderRow (fm : Bool) (σ : RowStyle) (r : TRow) : Bytes :=
+  σ.filler.flatten ++ σ.lead ++ r.label ++ (match r.weight with | some w => 58 :: w | none => []) ++
+    (match r.qid with | some q => σ.qidSep ++ [113, 105, 100, 58] ++ decimal q | none => []) ++
+    ((σ.seps.zip r.entries).flatMap fun se => renderEntry fm se.1 se.2) ++ σ.trail ++
+    (match σ.comment with | some c => 35 :: c | none => []) ++ σ.eol
+
+def renderSvm (σ : List RowStyle) (T : List TRow) : Bytes := ((σ.zip T).flatMap fun sr => renderRow false sr.1 sr.2)
+def renderFm (σ : List RowStyle) (T : List TRow) : Bytes := ((σ.zip T).flatMap fun sr => renderRow true sr.1 sr.2)
+
+def WfRow (fm : Bool) (mode : Nat) (σ : RowStyle) (r : TRow) : Prop :=
+  blanksOnly σ.lead ∧ isSep σ.qidSep ∧ σ.seps.length = r.entries.length ∧ (∀ s ∈ σ.seps, isSep s) ∧
+  blanksOnly σ.trail ∧ (∀ c, σ.comment = some c → fm = false ∧ noEol c) ∧ isEolStr σ.eol ∧
+  IsLexeme r.label ∧ (∀ w, r.weight = some w → IsLexeme w) ∧ (fm = true → r.qid = none) ∧
+  (∀ e ∈ r.entries, (∀ v, e.value = some v → IsLexeme v) ∧ (mode > 0 → 1 ≤ e.index ∧ (fm = true → 1 ≤ e.field))) ∧
+  ((∀ e ∈ r.entries, e.value.isSome) ∨ (∀ e ∈ r.entries, e.value = none)) ∧
+  (∀ l ∈ σ.filler, ∃ b c e, l = b ++ c ++ e ∧ blanksOnly b ∧ isEolStr e ∧ (c = [] ∨ (fm = false ∧ ∃ c', c = 35 :: c' ∧ noEol c')))
+
+/-- the row a table row describes: lexemes mean what the conversion makes of them standing alone -/
+def expectRow (fm : Bool) (gR gI gQ : Bytes → Res Nat) (iw mode : Nat) (r : TRow) : Res Row := do
+  let label ← gR r.label
+  let weight ← match r.weight with | some w => (gR w).map some | none => pure none
+  let qid ← match r.qid with | some q => (gQ (decimal q)).map some | none => pure none
+  let idx ← r.entries.mapM fun e => (gI (decimal e.index)).map fun i => if mode > 0 then decIdx iw i else i
+  let fld ← r.entries.mapM fun e => (gI (decimal e.field)).map fun i => if mode > 0 then decIdx iw i else i
+  let vals ← r.entries.filterMap (·.value) |>.mapM gR
+  return { label := some label, weight, qid, field := if fm && !r.entries.isEmpty then some fld else none,
+           index := idx, value := if vals.isEmpty then none else some vals }
+
+/-- **C12 for libsvm (full statement)**: for every table, every style and every exact conversion the parser
+returns exactly the rows of the table -/
+def C12_libsvm_statement : Prop :=
+  ∀ (conv : Conv) (gR gI gQ : Bytes → Res Nat) (gC : Bytes → Res (Nat × Nat)), Conv.ExactWith conv gR gI gQ gC →
+  ∀ (iw mode : Nat) (σ : List RowStyle) (T : List TRow), σ.length = T.length →
+    (∀ sr ∈ σ.zip T, WfRow false mode sr.1 sr.2) →
+    (∀ r ∈ T, ∀ r' ∈ T, r.weight.isSome = r'.weight.isSome ∧ r.qid.isSome = r'.qid.isSome) →
+    (renderSvm σ T).length + 2 < 2 ^ 64 →
+    ∀ rows, T.mapM (expectRow false gR gI gQ iw mode) = .ok rows →
+      C11.rows (.libsvm iw mode) conv (renderSvm σ T) = .ok rows
+
+def C12_libfm_statement : Prop :=
+  ∀ (conv : Conv) (gR gI gQ : Bytes → Res Nat) (gC : Bytes → Res (Nat × Nat)), Conv.ExactWith conv gR gI gQ gC →
+  ∀ (iw mode : Nat) (σ : List RowStyle) (T : List TRow), σ.length = T.length →
+    (∀ sr ∈ σ.zip T, WfRow true mode sr.1 sr.2) →
+    (∀ r ∈ T, ∀ r' ∈ T, r.weight.isSome = r'.weight.isSome) →
+    (renderFm σ T).length + 2 < 2 ^ 64 →
+    ∀ rows, T.mapM (expectRow true gR gI gQ iw mode) = .ok rows →
+      C11.rows (.libfm iw mode) conv (renderFm σ T) = .ok rows
+
+/-! csv -/
+
+structure CsvStyle where
+  delim : UInt8
+  eol : List Bytes          -- per row
+  pad : List (List (Bytes × Bytes))   -- blanks around each non-empty cell
+
+/-- a csv table: each row a list of cells, `none` = empty cell -/
+def renderCsv (σ : CsvStyle) (T : List (List (Option Bytes))) : Bytes :=
+  ((T.zip (σ.eol.zip σ.pad)).flatMap fun r =>
+    (((r.1.zip r.2.2).map fun cp => match cp.1 with
+        | some lex => cp.2.1 ++ lex ++ cp.2.2
+        | none => []).intersperse [σ.delim]).flatten ++ r.2.1)
+
+/-- the row a csv table row describes under (label_column, weight_column): empty cells absent but numbered -/
+def expectCsvRow (gC : Bytes → Res (Nat × Nat)) (prm : CsvParam) (cells : List (Option Bytes)) : Res Row := do
+  let vals ← cells.mapM fun c => match c with | some lex => (gC lex).map fun vk => some vk.1 | none => pure none
+  let cols := (List.range vals.length).zip vals
+  let feats := (cols.filter fun cv => u32 cv.1 != prm.labelCol && !(prm.isReal && u32 cv.1 == prm.weightCol))
+  let numbered := (List.range feats.length).zip (feats.map (·.2))
+  let present := numbered.filterMap fun iv => iv.2.map fun v => (iv.1, v)
+  return { label := (cols.find? fun cv => u32 cv.1 == prm.labelCol).bind (·.2)
+           weight := if prm.isReal then (cols.find? fun cv => u32 cv.1 == prm.weightCol).bind (·.2) else none
+           qid := none, field := none, index := present.map (·.1)
+           value := if present.isEmpty then none else some (present.map (·.2)) }
+
+def C12_csv_statement : Prop :=
+  ∀ (conv : Conv) (gR gI gQ : Bytes → Res Nat) (gC : Bytes → Res (Nat × Nat)), Conv.ExactWith conv gR gI gQ gC →
+  ∀ (prm : CsvParam) (σ : CsvStyle) (T : List (List (Option Bytes))),
+    isDelimB σ.delim = true → isEolB σ.delim = false → σ.delim.toNat = prm.delim →
+    σ.eol.length = T.length → σ.pad.length = T.length → (∀ e ∈ σ.eol, isEolStr e) →
+    (∀ r ∈ T, r ≠ [] ∧ r.getLast? ≠ some none ∧ ∀ c ∈ r, ∀ lex, c = some lex → IsLexeme lex) →
+    (∀ ps ∈ σ.pad, ∀ p ∈ ps, blanksOnly p.1 ∧ blanksOnly p.2 ∧ (isBlankB σ.delim = true → p.1 = [] ∧ p.2 = [])) →
+    (renderCsv σ T).length + 2 < 2 ^ 64 →
+    ∀ rows, T.mapM (expectCsvRow gC prm) = .ok rows → AgreeRows rows →
+      C11.rows (.csv prm) conv (renderCsv σ T) = .ok rows
+
+/-! ### the proved core: ParsePair on a rendered pair -/
+
+theorem dropWhile_blanks_lex (pred : UInt8 → Bool) (bl lex rest : Bytes) (hb : ∀ b ∈ bl, pred b = true)
+    (hl : ∀ d r, lex = d :: r → pred d = false) (hne : lex ≠ []) :
+    (bl ++ lex ++ rest).dropWhile pred = lex ++ rest := by
+  induction bl with
+  | nil =>
+    cases lex with
+    | nil => exact absurd rfl hne
+    | cons d r => simp [List.dropWhile, hl d r rfl]
+  | cons b bl ih =>
+    have := ih (fun x hx => hb x (by simp [hx]))
+    simp only [List.cons_append, List.dropWhile, hb b (by simp)]
+    simpa [List.append_assoc] using this
+
+theorem notDigit_of_digit (b : UInt8) (h : isDigitCharB b = true) : notDigitCharB b = false := by
+  simp only [notDigitCharB, isDigitCharB] at *; simp [h]
+
+theorem dropWhile_lex_delim (lex tail : Bytes) (hl : ∀ b ∈ lex, isDigitCharB b = true)
+    (ht : ∀ b, tail.head? = some b → isDigitCharB b = false) :
+    (lex ++ tail).dropWhile isDigitCharB = tail := by
+  induction lex with
+  | nil =>
+    cases tail with
+    | nil => rfl
+    | cons b t => simp [List.dropWhile, ht b rfl]
+  | cons d lex ih => simp [List.dropWhile, hl d (by simp), ih (fun x hx => hl x (by simp [hx]))]
+
+theorem blank_notDigit (b : UInt8) (h : isBlankB b = true) : notDigitCharB b = true := by
+  simp [isBlankB, Gen.Parse.isblank, notDigitCharB, Gen.Parse.isdigitchars] at *; omega
+
+theorem delim_notDigit (b : UInt8) (h : isDelimB b = true) : isDigitCharB b = false := by
+  simp [isDelimB] at h; exact h.1
+
+/-- **C12, proved core.** `ParsePair` (specification `pairS`, equal to the pointer model by
+`parsePair_at`) on `blanks lexeme₁ : lexeme₂ tail`, where `tail` is empty or starts with a blank or any
+other delimiter but `:`: returns 2, exactly the two values the lexemes have standing alone, and stops
+exactly at `tail`. -/
+theorem C12_pair_partial (g1 g2 : Bytes → Res Nat) (h1 : Exact g1) (h2 : Exact g2)
+    (bl lex1 lex2 tail : Bytes) (v1 v2 : Nat)
+    (hbl : blanksOnly bl) (hl1 : IsLexeme lex1) (hl2 : IsLexeme lex2)
+    (hns1 : ∀ b ∈ lex1, nonStopB b = true) (hns2 : ∀ b ∈ lex2, nonStopB b = true)
+    (ht : ∀ b, tail.head? = some b → isDelimB b = true) (htns : ∀ b ∈ tail, nonStopB b = true)
+    (hv1 : g1 lex1 = .ok v1) (hv2 : g2 lex2 = .ok v2) :
+    pairS g1 g2 (bl ++ lex1 ++ 58 :: (lex2 ++ tail)) = .ok { r := 2, rest := tail, v1 := v1, v2 := v2 } := by
+  obtain ⟨d1, r1, rfl⟩ : ∃ d r, lex1 = d :: r := by
+    cases lex1 with
+    | nil => exact absurd rfl hl1.1
+    | cons d r => exact ⟨d, r, rfl⟩
+  obtain ⟨d2, r2, rfl⟩ : ∃ d r, lex2 = d :: r := by
+    cases lex2 with
+    | nil => exact absurd rfl hl2.1
+    | cons d r => exact ⟨d, r, rfl⟩
+  have hcolon_nd : isDigitCharB 58 = false := by decide
+  have hcolon_delim : isDelimB 58 = true := by decide
+  have e1 : (bl ++ (d1 :: r1) ++ 58 :: ((d2 :: r2) ++ tail)).dropWhile notDigitCharB
+      = (d1 :: r1) ++ 58 :: ((d2 :: r2) ++ tail) :=
+    dropWhile_blanks_lex notDigitCharB bl (d1 :: r1) _ (fun b hb => blank_notDigit b (hbl b hb))
+      (fun d r h => by cases h; exact notDigit_of_digit _ (hl1.2 _ (by simp))) (by simp)
+  have run1 : ((d1 :: r1) ++ 58 :: ((d2 :: r2) ++ tail)).takeWhile nonStopB
+      = (d1 :: r1) ++ 58 :: ((d2 :: r2) ++ tail) :=
+    takeWhile_all _ _ (fun x hx => by
+      simp at hx
+      rcases hx with rfl | hx | rfl | rfl | hx | hx
+      · exact hns1 _ (by simp)
+      · exact hns1 _ (by simp [hx])
+      · decide
+      · exact hns2 _ (by simp)
+      · exact hns2 _ (by simp [hx])
+      · exact htns _ hx)
+  have run2 : ((d2 :: r2) ++ tail).takeWhile nonStopB = (d2 :: r2) ++ tail :=
+    takeWhile_all _ _ (fun x hx => by
+      simp at hx
+      rcases hx with rfl | hx | hx
+      · exact hns2 _ (by simp)
+      · exact hns2 _ (by simp [hx])
+      · exact htns _ hx)
+  have e2 : ((d1 :: r1) ++ 58 :: ((d2 :: r2) ++ tail)).dropWhile isDigitCharB = 58 :: ((d2 :: r2) ++ tail) :=
+    dropWhile_lex_delim _ _ hl1.2 (fun b hb => by simp at hb; subst hb; exact hcolon_nd)
+  have e3 : ((d2 :: r2) ++ tail).dropWhile isDigitCharB = tail :=
+    dropWhile_lex_delim _ _ hl2.2 (fun b hb => delim_notDigit b (ht b hb))
+  have hd2 : notDigitCharB d2 = false := notDigit_of_digit _ (hl2.2 d2 (by simp))
+  unfold pairS
+  rw [e1]
+  simp only [List.cons_append] at run1 run2 e2 e3 ⊢
+  simp only [run1, e2]
+  have g1e := h1.exact (d1 :: r1) (58 :: ((d2 :: r2) ++ tail)) hl1 (fun b hb => by simp at hb; subst hb; exact hcolon_delim)
+  simp only [List.cons_append] at g1e
+  rw [g1e, hv1]
+  have g2e := h2.exact (d2 :: r2) tail hl2 ht
+  simp only [List.cons_append] at g2e
+  have e4 : (58 :: d2 :: (r2 ++ tail)).dropWhile isBlankB = 58 :: d2 :: (r2 ++ tail) := by
+    simp [List.dropWhile, isBlankB, Gen.Parse.isblank]
+  have e5 : (d2 :: (r2 ++ tail)).dropWhile notDigitCharB = d2 :: (r2 ++ tail) := by
+    simp [List.dropWhile, hd2]
+  simp only [bind, Except.bind, e4, e5, run2, g2e, hv2, e3]
+  simp
+
+/-- the hypotheses of `C12_pair_partial` are satisfiable: "1.5:-2e3 " with the conversions of the driver -/
+example : IsLexeme [49, 46, 53] ∧ IsLexeme [45, 50, 101, 51] ∧ isDelimB 32 = true ∧ isDelimB 58 = true := by
+  refine ⟨⟨by decide, by decide⟩, ⟨by decide, by decide⟩, by decide, by decide⟩
+
 end DmlcModel.Props.C12
